@@ -1,7 +1,7 @@
 use crate::{
     cfg::RegisterSet,
     parser::{
-        CsrIType, CsrType, HasRegisterSets, IArithType, InstructionProperties, ParserNode,
+        ArithType, CsrIType, CsrType, HasRegisterSets, IArithType, InstructionProperties, ParserNode,
         Register, RegisterProperties,
     },
 };
@@ -112,7 +112,12 @@ impl HasGenValueInfo for ParserNode {
             }
             ParserNode::Arith(expr) => {
                 if expr.rs1 == Register::X0 && expr.rs2 == Register::X0 {
-                    Some((expr.rd.get(), AvailableValue::Constant(0)))
+                    // Every operation maps (0, 0) to 0, except division by zero
+                    let value = match expr.inst.get() {
+                        ArithType::Div | ArithType::Divu | ArithType::Divw => -1,
+                        _ => 0,
+                    };
+                    Some((expr.rd.get(), AvailableValue::Constant(value)))
                 } else {
                     None
                 }
